@@ -525,6 +525,31 @@ def upper_bound_guards(b, target, srcs):
     return out
 
 
+def tuple_field_of_call(b, op, call_blk, depth=0):
+    """which field (0, 1, ..) of the tuple returned by the call ending block `call_blk` an operand is a copy / borrow /
+    conversion of (`let (a, c) = x.split_at(n)`); None when it is not one of them"""
+    pl = op_place(op)
+    if pl is None or depth > 8:
+        return None
+    fs = [e["f"] for e in pl.get("p", []) if isinstance(e, dict) and "f" in e]
+    dest = b.term(call_blk)["dest"]["l"]
+    if pl["l"] == dest:
+        return fs[0] if fs else None
+    for d in b.defs().get(pl["l"], []):
+        if d[0] == "stmt" and d[3]["k"] == "assign" and not d[3]["lhs"].get("p"):
+            rv = d[3]["rv"]
+            inner = rv["op"] if rv["k"] in ("use", "cast") else ({"cp": rv["pl"]} if rv["k"] == "ref" else None)
+            if inner is not None:
+                r = tuple_field_of_call(b, inner, call_blk, depth + 1)
+                if r is not None:
+                    return r
+        elif d[0] == "call" and d[2]["args"] and call_is(d[2], r"convert::(Into|TryInto|From|TryFrom|AsRef)<.*>>::(into|try_into|from|try_from|as_ref)$", r"Result::<.*>::(unwrap|expect)$", r"ops::Deref>::deref$", r"Try>::branch$"):
+            r = tuple_field_of_call(b, d[2]["args"][0], call_blk, depth + 1)
+            if r is not None:
+                return r
+    return None
+
+
 def ok_payloads(b, call_blk):
     """locals that hold the Ok value of the Result returned by the call ending block `call_blk` (through `?`, unwrap, expect)"""
     copies = b.whole_copies({b.term(call_blk)["dest"]["l"]})
